@@ -64,6 +64,8 @@ def directed_cases(seed: int, tier: str) -> typing.List[dict]:
         ("ext-stem", {"ext": ".inc", "ns_stem": "nsfile", "ns_types": True}),
         ("empty-root", {"root": "emptyroot", "lookups": []}),
         ("verbose", {"verbosity": "-v"}),
+        ("config-file-extension-stem", {"cfg_doc": {"extension": ".gen.h", "namespace_file_stem": "pkg"}, "ns_types": True, "templates": "by_kind"}),
+        ("config-file-support-namespace", {"cfg_doc": {"support_namespace": "acme.support"}}),
         ("very-verbose", {"verbosity": "-vv", "ns_types": True}),
     ]
     for lang in ["c", "cpp", "py"]:
@@ -126,6 +128,17 @@ def _gen_opts(r: Rng, ds: dsdlgen.DsdlSet, lang: typing.Optional[str], fixed: ty
             o["extra_support"] = r.choice([True, "readonly"])  # a plain (copied) header in the language's support package
         if r.chance(1, 6):
             o["file_mode"] = r.choice([0o444, 0o644, 0o600, 0o400])
+        if r.chance(1, 5):
+            # values that reach every mode only through a --configuration file (not through a command-line flag)
+            doc = {}  # type: typing.Dict[str, typing.Any]
+            if r.chance(1, 2):
+                doc["extension"] = r.choice([".hxx", ".inc", ".gen.h"]) if lang in ("c", "cpp") else r.choice([".py", ".pyi"]) if lang == "py" else ".htm"
+            if r.chance(1, 2):
+                doc["namespace_file_stem"] = r.choice(["_nsfile", "pkg", "index_"])
+            if r.chance(1, 2) and lang in ("c", "cpp", "py"):
+                doc["support_namespace"] = r.choice(["acme.support", "sup", "nunavut.support.v2"])
+            if doc:
+                o["cfg_doc"] = doc
         if r.chance(1, 5):
             o["verbosity"] = r.choice(["-v", "-vv"])  # diagnostics are not part of the printed list (stdout is a data channel)
     o.update(fixed)
@@ -238,6 +251,17 @@ def run_case(case: dict, ctx: dict) -> dict:
             o["support_templates"] = "%s-%s" % (o["support_templates"], o["lang"])
         if o.get("verbosity"):
             o["extra_argv"] = list(o.get("extra_argv", [])) + [o["verbosity"]]
+        if o.get("cfg_doc"):
+            import yaml
+
+            cfg_dir = os.path.join(world.sandbox, "cfg")
+            os.makedirs(cfg_dir, exist_ok=True)
+            cp = os.path.join(cfg_dir, "project-%s.yaml" % hashlib.sha256(repr(sorted(o["cfg_doc"].items())).encode()).hexdigest()[:8])
+            if not os.path.exists(cp):
+                with open(cp, "w", encoding="utf-8") as f:
+                    yaml.safe_dump({"nunavut.lang.%s" % o["lang"]: o["cfg_doc"]}, f)
+            o["configs"] = [cp]
+            o.pop("cfg_doc")
         return o
 
     def env_plan(o: dict) -> dict:
